@@ -64,6 +64,8 @@ func (sc *samplingCoordinator) run(ctx context.Context, cp checkpoint) {
 	for _, wk := range cp.Workers {
 		sc.runWorker(ctx, sc.state.newJob(wk.JobType, wk.From, wk.To))
 	}
+	// nothing may be left to do after a restart: report catch-up as done right away
+	sc.state.checkDone()
 	verifCoord(sc, "resume")
 
 	for {
